@@ -25,6 +25,10 @@ Ties (all compared inside Coq by vm_compute, model = coq/theories/Util.v):
   * names as data (all streams): kernel names of the log and of the trace are drawn from the whole documented row
     class (letters, digits, '_', '-': leading underscore / digit / dash, all digits, doubled / trailing dashes) and
     include names that differ only in case (XPOOL, case_variant); category names likewise (XCATS).
+  * magnitudes (direct, off-grid and chain streams; heavy=True): every 6th direct case, 30 % of the off-grid cases and
+    every 5th chain have a table of 1e8 .. 4e9 ideal cycles per kernel (also 2^31 +- 2, 2^32 +- 2) and kernel slices
+    of 0.1 .. 4 s, several per rank, so that category rows and the Total row pass 2^31 and 2^32 cycles; in the chains
+    TS1..TS5 are written modulo 2^32 with every slice shorter than half a counter period.
   * off-grid (supporting, ORACLE ONLY - no Coq comparison): 560:800 / 1000:1100 MHz style frequencies and decimal
     times; pt_active / Percent up to relative 1e-12, csv sums up to relative 1e-9, Ideal_Cyc exact, row order not
     checked.
@@ -225,16 +229,28 @@ def gen_pieces(rng, edge):
     return ["-opCat", "Total"]
 
 
-def gen_row(rng, base, edge, zero_p=0.25):
-    cyc = 0 if rng.random() < zero_p else rng.choice([rng.randrange(1, 64), rng.randrange(1, 200000),
-                                                       G * rng.randrange(1, 200)])
+def heavy_cycles(rng):
+    """MAGNITUDES: ideal cycle counts of 1e8 .. 4e9 per kernel (0.1 .. 5 s of ideal time at 800 MHz), and counts right
+    at 2^31 / 2^32, so that the sums of a category row and of the Total row pass 2^31 and 2^32"""
+    return rng.choice([rng.randrange(10 ** 8, 4 * 10 ** 9), rng.randrange(10 ** 8, 4 * 10 ** 9),
+                       G * rng.randrange(10 ** 5, 4 * 10 ** 6), (1 << 31) + rng.randrange(-2, 3),
+                       (1 << 32) + rng.randrange(-2, 3), rng.randrange(1, 200000)])
+
+
+def gen_row(rng, base, edge, zero_p=0.25, heavy=False):
+    if heavy:
+        cyc = 0 if rng.random() < min(zero_p, 0.15) or zero_p >= 1.0 else heavy_cycles(rng)
+    else:
+        cyc = 0 if rng.random() < zero_p else rng.choice([rng.randrange(1, 64), rng.randrange(1, 200000),
+                                                           G * rng.randrange(1, 200)])
     sep = rng.choice([1, 2, 80 - min(79, len(base) + 10)])
     return ("row", base, gen_pieces(rng, edge), cyc, max(1, sep), rng.choice([0, 0, 3, 15]),
             rng.choice([0, 0, 0, 2]) if edge else 0)
 
 
-def gen_log(rng, edge=False, all_zero=False, pool=None):
-    """single-table log: items (classification, = the model's input) in line order"""
+def gen_log(rng, edge=False, all_zero=False, pool=None, heavy=False):
+    """single-table log: items (classification, = the model's input) in line order; heavy: the rows of the table carry
+    ideal cycle counts of 1e8 .. 4e9"""
     if pool is None:
         pool = rng.sample(KPOOL, rng.randrange(1, 8))
         if rng.random() < 0.45:
@@ -265,10 +281,10 @@ def gen_log(rng, edge=False, all_zero=False, pool=None):
     items.append(("start", rng.randrange(len(STARTS))))
     body = []
     for b in pool:
-        body.append(gen_row(rng, b, edge, zero_p=1.0 if all_zero else 0.25))
+        body.append(gen_row(rng, b, edge, zero_p=1.0 if all_zero else 0.25, heavy=heavy))
         r = rng.random()
         if r < 0.12:                                                    # duplicate row, same or different values
-            body.append(gen_row(rng, b, edge, zero_p=1.0 if all_zero else 0.4))
+            body.append(gen_row(rng, b, edge, zero_p=1.0 if all_zero else 0.4, heavy=heavy))
         elif r < 0.2:
             body.append(gen_row(rng, b + rng.choice(["-Precompute", "-LxPreload", "_Precompute_x"]), edge))
         elif r < 0.3:
@@ -317,11 +333,12 @@ def listed(items):
 
 
 # ---------------------------------------------------------------- event generator
-def gen_events(rng, items, edge=False, stats=True, n=None):
+def gen_events(rng, items, edge=False, stats=True, n=None, heavy=False):
+    """heavy: more slices per rank and slices that run for 0.1 .. 4 s (the time unit is the microsecond)"""
     truth = listed(items)
     names = [k[:-len(CE) - 1] for k in truth[1]] if truth else []
     npid = rng.choice([1, 1, 2, 3])
-    n = rng.randrange(0, 14) if n is None else n
+    n = (rng.randrange(3, 20) if heavy else rng.randrange(0, 14)) if n is None else n
     evs = []
     ts = {p: rng.randrange(1, 1 << 30) + rng.randrange(G) / G for p in range(npid)}
     for _ in range(n):
@@ -344,6 +361,8 @@ def gen_events(rng, items, edge=False, stats=True, n=None):
                 durg = max(1, cyc >> rng.randrange(1, 4))           # above 100 %
             elif cyc and rr < 0.45:
                 durg = cyc << rng.randrange(1, 5)
+            elif heavy and rr < 0.9:
+                durg = rng.randrange(10 ** 8, 4 * 10 ** 9)         # 0.1 .. 4 s
             else:
                 durg = rng.choice([rng.randrange(1, 400), rng.randrange(1, 300000)])
             e = {"ph": "X", "name": base + " " + CE, "pid": pid, "tid": 3, "ts": ts[pid], "dur": durg / G,
@@ -376,21 +395,26 @@ def gen_events(rng, items, edge=False, stats=True, n=None):
         # degenerate durations: only without calculate_stats (it asserts dur > 0)
         for e in evs:
             if e["ph"] == "X" and rng.random() < 0.2:
-                e["dur"] = rng.choice([0.0, -e["dur"], 2.0 ** -40])
+                # (heavy: no 2^-40 - next to durations of seconds the double sum of a category row would no longer
+                # be exact, and the tie compares the sums exactly)
+                e["dur"] = rng.choice([0.0, -e["dur"]] if heavy else [0.0, -e["dur"], 2.0 ** -40])
     return evs
 
 
-def gen_case(rng, edge=False, all_zero=False):
-    items = gen_log(rng, edge=edge, all_zero=all_zero)
+def gen_case(rng, edge=False, all_zero=False, heavy=False):
+    items = gen_log(rng, edge=edge, all_zero=all_zero, heavy=heavy)
     stats = rng.random() < 0.8
     core = rng.choice(CORES)
-    return {"items": items, "core": core, "soc": rng.choice(CORES), "stats": stats,
-            "events": gen_events(rng, items, edge=edge, stats=stats)}
+    c = {"items": items, "core": core, "soc": rng.choice(CORES), "stats": stats,
+         "events": gen_events(rng, items, edge=edge, stats=stats, heavy=heavy)}
+    if heavy:
+        c["heavy"] = True
+    return c
 
 
 def gen_offgrid(rng):
     """realistic decimals: 560:800 / 1000:1100 MHz, times with 3 decimals (supporting stream, oracle only)"""
-    c = gen_case(rng, edge=False)
+    c = gen_case(rng, edge=False, heavy=rng.random() < 0.3)
     c["core"] = rng.choice([800.0, 1100.0, 560.0, 1000.0, 933.3])
     c["soc"] = rng.choice([560.0, 1000.0])
     c["stats"] = True
@@ -923,8 +947,11 @@ CHAIN_OPTS = E2E_OPTS + [["-C", "rcu_util", "power_ts4"], ["-C", "rcu_util"], ["
                          ["-t", "-C", "rcu_util", "prep_queue"], ["-t", "-C", "rcu_util", "coll_bw"]]
 
 
-def gen_chain(rng):
-    """kernel CHAINS: one to three ranks whose Exec slices follow each other on the device without any idle cycle
+def gen_chain(rng, heavy=False):
+    """heavy (MAGNITUDES): the table lists 1e8 .. 4e9 ideal cycles per kernel and most Exec slices run for seconds - each
+    for less than half a period of the 32-bit device counter (TS1..TS5 are written modulo 2^32, as the device does),
+    several of them per rank, so that the rank's trace spans several counter periods.
+    kernel CHAINS: one to three ranks whose Exec slices follow each other on the device without any idle cycle
     (TS3 of a kernel == TS4 of its predecessor; next to it one-cycle gaps and ordinary gaps), everything on the exact
     grid, so that the end of one slice and the start of the next are the SAME exported timestamp: the closing
     'PT Active' sample of one kernel and the opening sample of the next tie.  Same case format as gen_e2e."""
@@ -936,9 +963,10 @@ def gen_chain(rng):
     if rng.random() < 0.5:
         names = exotic_pool(rng, names)          # names as data: leading '_' / digit / dash, case-only differences
     tabled = [n for n in names if rng.random() < 0.85] or names[:1]
-    items = gen_log(rng, edge=False, pool=tabled + rng.sample(KPOOL, rng.randrange(0, 2)))
+    items = gen_log(rng, edge=False, pool=tabled + rng.sample(KPOOL, rng.randrange(0, 2)), heavy=heavy)
     truth = listed(items)
     files, nsl = {}, 0
+    W = scenario.W
     for r in range(R):
         tbase = rng.randrange(1 << 20, 1 << 34) + rng.randrange(1024) / 1024.0
         c0 = rng.randrange(1000, scenario.W // 2)
@@ -961,9 +989,13 @@ def gen_chain(rng):
                 ex = soc_ideal >> rng.randrange(1, 4)   # above 100 %: capped
             elif cyc and rr < 0.65:
                 ex = soc_ideal << rng.randrange(1, 5)
+            elif heavy and rr < 0.92:
+                ex = rng.randrange(W // 40, W * 45 // 100)
             else:
                 ex = rng.choice([rng.randrange(4, 400), rng.randrange(400, 90000)])
             ex = max(4, ex)
+            if heavy:
+                ex = min(ex, W * 45 // 100)             # a slice lasts less than half a counter period
             u = rng.random()
             gap = 0 if (k > 0 and u < p_tie) else (1 if u < p_tie + 0.15 else rng.randrange(2, 50000))
             ts3 = prev4 + gap
@@ -973,7 +1005,8 @@ def gen_chain(rng):
             charge = (charge + rng.randrange(1, 4000) * (ts[4] - ts[0]) // 64 + 1) % scenario.W
             for (kw, i, j, tid) in ([("Cmpt Prep", 1, 2, scenario.TID_PREP)] if with_prep else []) + \
                     [(CE, 2, 3, scenario.TID_EXEC)]:
-                attr = {"TS" + str(q + 1): (hex(ts[q]) if rng.random() < 0.5 else str(ts[q])) for q in range(5)}
+                attr = {"TS" + str(q + 1): (hex(ts[q] % W) if rng.random() < 0.5 else str(ts[q] % W))
+                        for q in range(5)}
                 attr["Power"] = hex(charge) if rng.random() < 0.5 else str(charge)
                 t0, t1 = H + ts[i] / f, H + ts[j] / f
                 evs.append((t0, t1, {"name": f"{name} {kw}", "pid": r, "tid": tid, "ts": t0, "attr": attr}))
@@ -991,7 +1024,7 @@ def gen_chain(rng):
                 out.append(dict(e, ph="X", dur=t1 - t0))
         files[f"rank{r}_job0.json"] = out
     return {"files": files, "freq": float(f), "core": core, "opts": with_profile(rng, rng.choice(CHAIN_OPTS)), "items": items,
-            "text": log_text(items), "summary": {"ranks": R, "slices": nsl, "chain": True}}
+            "text": log_text(items), "summary": {"ranks": R, "slices": nsl, "chain": True, "heavy": bool(heavy)}}
 
 
 def run_e2e(ec, workdir):
@@ -1160,7 +1193,8 @@ def run(ctx):
     rng = ctx.rng
     work = os.path.join(ctx.work, "w")
     dist = {"direct": {"cases": 0, "edge": 0, "all_zero_table": 0, "stats_off": 0, "events": {}, "rows": {},
-                       "pids": {}, "core": {}, "errors": {}},
+                       "pids": {}, "core": {}, "errors": {}, "heavy": 0, "ranks_total_cycles_ge_2^31": 0,
+                       "ranks_total_cycles_ge_2^32": 0, "category_rows_cycles_ge_2^31": 0},
             "parser": {"logs": 0}, "e2e": {"scenarios": 0, "options": {}, "ranks": {}, "kernel_slices": 0,
                                            "all_zero_or_empty_table": 0, "aborted": 0}}
     oracle_failures, mism, ties, samples = [], [], [], []
@@ -1180,7 +1214,7 @@ def run(ctx):
     n_corpus = len(cases)
     for i in range(ctx.pick(420, 5000)):
         az = (i % 25 == 7)
-        cases.append(gen_case(rng, edge=(i % 5 == 4), all_zero=az))
+        cases.append(gen_case(rng, edge=(i % 5 == 4), all_zero=az, heavy=(i % 6 == 1)))
     terms = []
     for i, c in enumerate(cases):
         obs = run_impl(c, work)
@@ -1191,6 +1225,19 @@ def run(ctx):
         d["stats_off"] += int(not c["stats"])
         tr = listed(c["items"])
         d["all_zero_table"] += int(tr is not None and tr[2] == 0)
+        d["heavy"] += int(bool(c.get("heavy")))
+        if tr is not None:
+            per = {}
+            for e in c["events"]:
+                if is_kernel_ev(e):
+                    kn = resolved_name(e)
+                    k2 = (e["pid"], tr[1].get(kn, "other"))
+                    per[k2] = per.get(k2, 0) + tr[0].get(kn, 0)
+            for p_ in {k2[0] for k2 in per}:
+                t_ = sum(v for k2, v in per.items() if k2[0] == p_)
+                d["ranks_total_cycles_ge_2^31"] += int(t_ >= 1 << 31)
+                d["ranks_total_cycles_ge_2^32"] += int(t_ >= 1 << 32)
+            d["category_rows_cycles_ge_2^31"] += sum(1 for v in per.values() if v >= 1 << 31)
         _bump(d["events"], min(len(c["events"]), 12))
         _bump(d["rows"], min(sum(1 for it in c["items"] if it[0] == "row"), 12))
         _bump(d["pids"], len({e["pid"] for e in c["events"]}))
@@ -1269,12 +1316,13 @@ def run(ctx):
                 ec.setdefault("summary", {"ranks": len(ec["files"]), "chain": True})
             dist["e2e"]["corpus"] = len(batch)
         else:
-            batch = [gen_e2e(rng, ework) if i < n_gen else gen_chain(rng)]
+            batch = [gen_e2e(rng, ework) if i < n_gen else gen_chain(rng, heavy=((i - n_gen) % 5 == 2))]
         for ec in batch:
             obs, mcase, ks, rest = run_e2e(ec, ework)
             d = dist["e2e"]
             d["scenarios"] += 1
             d["chain_scenarios"] += int(bool(ec["summary"].get("chain")))
+            d["heavy_chain_scenarios"] = d.get("heavy_chain_scenarios", 0) + int(bool(ec["summary"].get("heavy")))
             _bump(d["options"], " ".join(ec["opts"]) or "(default)")
             _bump(d["ranks"], ec["summary"]["ranks"])
             tr = listed(ec["items"])
@@ -1346,7 +1394,7 @@ def search(ctx, res, broken):
         for i in range(ctx.pick(4000, 50000)):
             if time.time() - t0 > lim:
                 break
-            c = gen_case(r, edge=(i % 3 == 2), all_zero=(i % 20 == 5))
+            c = gen_case(r, edge=(i % 3 == 2), all_zero=(i % 20 == 5), heavy=(i % 4 == 1))
             fs = oracle_direct(c, run_impl(c, work))
             if fs:
                 small = shrink_direct(c, work, fs[0]["signature"]["kind"], budget=30.0)
@@ -1355,7 +1403,7 @@ def search(ctx, res, broken):
                 small = {k: small[k] for k in ("items", "core", "soc", "stats", "events")}
                 return [failure_record("direct", small, gs[0] if gs else fs[0])]
             if i % 40 == 0:
-                ec = gen_e2e(r, work + "e") if i % 80 == 0 else gen_chain(r)
+                ec = gen_e2e(r, work + "e") if i % 80 == 0 else gen_chain(r, heavy=(i % 160 == 40))
                 obs, mcase, ks, rest = run_e2e(ec, work + "e")
                 if isinstance(obs, enc.Err):
                     fs = [{"expected": "run completes", "observed": repr(obs),
